@@ -150,6 +150,28 @@ on reload.  Any edit of these statements in `/repo` breaks this theorem. -/
 theorem C12_load_cut_matches_source :
     H5Gen.loadCut = modelLoadCut ∧ H5Gen.nextShape = modelNextShape := ⟨rfl, rfl⟩
 
+/-- the `count` setter of a `FileGenerator`: right after `generator.count = c` the count reads `c`
+(for `c` at least the part already attributed to files), and because `create_event` only ever
+overwrites the slots of files (`counts[fileIdx]`, `fileIdx ≥ 1`), every later count is shifted by
+the same amount: the total is always slot 0 plus the per-file slots -/
+theorem C12_filegen_count_setter (g : FG) (c : Nat) (hne : g.counts ≠ [])
+    (hc : lsum (g.counts.drop 1) ≤ c) :
+    lsum (fgSetCount g c).counts = c ∧
+    ∀ x, lsum (g.counts.set 0 x) = x + lsum (g.counts.drop 1) := by
+  cases hcs : g.counts with
+  | nil => exact absurd hcs hne
+  | cons a rest =>
+    have hset : ∀ x, lsum ((a :: rest).set 0 x) = x + lsum ((a :: rest).drop 1) := by
+      intro x; simp only [List.set_cons_zero, List.drop_succ_cons, List.drop_zero]; exact lsum_cons x rest
+    refine ⟨?_, hset⟩
+    have h1 : (fgSetCount g c).counts = (a :: rest).set 0 (c - lsum ((a :: rest).drop 1)) := by
+      simp [fgSetCount, hcs, lsum]
+    rw [hcs] at hc
+    rw [h1, hset]
+    omega
+
+example : lsum (fgSetCount ⟨2, 3, [], [], [0, 4, 2, 0]⟩ 100).counts = 100 := by decide
+
 /-- event handles are independent: in the model an iterator is a value, so in a session holding several
 handles (`hs`) a step of handle `i` (creation, `next`, chunk reload — any new state `it'`) leaves
 what every other handle `j` shows unchanged.  That the CODE behaves like this (no storage shared
@@ -216,3 +238,18 @@ example :
         (fun g => (fgAll [f1, f2] 3 (fun k n T => (k + 1) * T / n) 8 g)) =
       some ([([.data 0 0], 1), ([.data 1 0, .data 1 1, .data 1 2], 2), ([.data 2 0, .data 2 1], 3), ([.data 3 0], 4),
              ([.data 0 0, .data 0 1], 7), ([.data 2 0], 10)], Err.stop) := by decide
+
+/-- the share function `(k+1)·T / n` (exact integer arithmetic) meets the hypothesis of
+`C12_filegen_count_total`: the last event of a file carries the whole `total_thrown` -/
+example : ∀ n T, 0 < n → (fun k n T => (k + 1) * T / n) (n - 1) n T = T := by
+  intro n T hn
+  show (n - 1 + 1) * T / n = T
+  rw [Nat.sub_add_cancel hn, Nat.mul_comm, Nat.mul_div_cancel _ hn]
+
+/-- `C12_iterate_eq_sequential`, `C12_getitem_int_out_of_range`, `C12_append_eq_single` on a concrete
+history with a rejected add and two sessions -/
+example :
+    let ops : List Op := [.ok ⟨2, true, 0, 0, false, 1⟩, .rejected ⟨3, true, 0, 0, false, 1⟩ 4, .reopen, .ok ⟨1, true, 0, 0, false, 1⟩]
+    (iterAll (run c12Opts ops) (some 1)).1.map (fun ev => ev .particles) = [[.data 0 0, .data 0 1], [.data 2 0]] ∧
+    (getitemInt (run c12Opts ops) 2).toOption.isNone = true ∧
+    numEvents (run c12Opts ops) = numEvents (run c12Opts (ops.filter (fun op => !isReopen op))) := by decide
